@@ -384,6 +384,39 @@ def run(ctx):
             violations.append({"key": None, "what": f"sequences / sets written side by side (fan-out per level {widths}) are not read back: {type(e).__name__} {e}"[:300],
                                "fan_out_per_level": widths, "bytes": len(data)})
 
+    # get_data() may be called at any time, also BETWEEN writes and before / after a pushed sequence closes: every later get_data() returns
+    # everything written so far (each snapshot is a prefix of the next), and the final bytes read back as the whole tree
+    for _ in range(ctx.scale(300, 5000)):
+        evaluations += 1
+        hist["tree-with-get_data-in-between"] += 1
+        w = ASN1Writer()
+        spec, snaps = [], []
+        for _i in range(rng.choice([2, 3, 5])):
+            if rng.random() < 0.7:
+                snaps.append(bytes(w.get_data()))
+            k = rng.choice(["int", "oct", "seq", "set", "seq"])
+            if k == "int":
+                v = gen.g_int(rng)
+                w.write_integer(v)
+                spec.append(("int", v))
+            elif k == "oct":
+                c = bytes(rng.randrange(256) for _ in range(rng.choice([0, 3, 130])))
+                w.write_octet_string(c)
+                spec.append(("oct", c, None))
+            else:
+                with (w.push_sequence() if k == "seq" else w.push_set()) as inner:
+                    if rng.random() < 0.3:
+                        snaps.append(bytes(w.get_data()))          # while the child is still open
+                    spec.append((k, build(inner, 2), None))
+        data = bytes(w.get_data())
+        try:
+            assert all(data.startswith(sn) for sn in snaps), "an earlier get_data() result is not a prefix of a later one"
+            assert bytes(w.get_data()) == data, "two get_data() calls in a row differ"
+            readback(ASN1Reader(data), spec)
+        except BaseException as e:  # noqa: BLE001
+            violations.append({"key": None, "what": f"values written around get_data() calls are not all in the final get_data(): {type(e).__name__} {e}"[:300],
+                               "hex": data[:120].hex(), "items_written": len(spec), "snapshots_taken": len(snaps)})
+
     for _ in range(ctx.scale(500, 10000)):
         evaluations += 1
         w = ASN1Writer()
